@@ -26,9 +26,9 @@ RECURSIVE Resolve(_, _, _)
 Resolve(c, d, fuel) == IF d[1] = "u64" /\ fuel > 0 THEN Resolve(c, FromSeedM(c, Expand(d[2])), fuel - 1) ELSE d
 
 Init == /\ cls \in Classes
-        /\ \E bs \in Bytes01(3 * SLen), fa \in 0..3, pa \in {0, 1}, st \in BOOLEAN, fl \in BOOLEAN :
+        /\ \E bs \in Bytes01(3 * SLen), fa \in 0..3, pa \in {0, 1}, st \in BOOLEAN, fl \in BOOLEAN, ld \in {0, SLen + 1} :
               /\ ~AllZero(bs)
-              /\ src = [bytes |-> bs, pos |-> 0, calls |-> 0, fallible |-> fl, failAt |-> IF fl THEN fa ELSE 0,
+              /\ src = [bytes |-> bs, lead |-> ld, pos |-> 0, calls |-> 0, fallible |-> fl, failAt |-> IF fl THEN fa ELSE 0,
                         partial |-> pa, sticky |-> st]
         /\ last = [op |-> "none"] /\ calls = 0
 
